@@ -65,6 +65,11 @@ type FS struct {
 	ShortWrite  bool // the failing write stores a prefix of one byte less than asked
 	writes      int
 	faultArmedAt int
+	// FailOpAt: the n-th (0-based) mutating call of any kind (create, write, truncate, rename, unlink, rmdir,
+	// mkdir) fails without effect; -1 = never
+	FailOpAt int
+	mutOps   int
+	opHit    bool
 	tmpN        int
 	// listing order of directories: 0 = sorted (what the OS gives for os.ReadDir), 1 = reverse creation order
 	WalkReverse bool
@@ -83,7 +88,7 @@ var ErrInjected = errors.New("injected I/O failure")
 
 // NewFS returns a fresh file system; under the symbolic engine it installs the redirects.
 func NewFS() *FS {
-	f := &FS{FailWriteAt: -1}
+	f := &FS{FailWriteAt: -1, FailOpAt: -1}
 	if Symbolic() {
 		f.sym = true
 		f.Root = "/vfs"
@@ -113,6 +118,26 @@ func (f *FS) journal(op Op) {
 		f.Journal = append(f.Journal, op)
 	}
 }
+
+// opFault counts a mutating call and reports whether it is the one to fail.
+func (f *FS) opFault() bool {
+	if f.NoJournal {
+		return false
+	}
+	hit := f.FailOpAt >= 0 && f.mutOps == f.FailOpAt
+	f.mutOps++
+	if hit {
+		f.opHit = true
+	}
+	return hit
+}
+
+// ArmOpFault makes the k-th mutating file-system call from now fail (symbolic engine only).
+func (f *FS) ArmOpFault(k int) { f.FailOpAt = f.mutOps + k; f.opHit = false }
+
+// OpFaultHit reports whether the armed failure was delivered; DisarmOpFault switches it off.
+func (f *FS) OpFaultHit() bool { return f.opHit }
+func (f *FS) DisarmOpFault()   { f.FailOpAt = -1 }
 
 func (f *FS) lookup(p string) *node {
 	p = filepath.Clean(p)
@@ -252,6 +277,9 @@ func (h *MemHandle) Write(b []byte) (int, error) {
 		return 0, fs.ErrClosed
 	}
 	f := h.fs
+	if f.opFault() {
+		return 0, ErrInjected
+	}
 	if f.FailWriteAt >= 0 && f.writes == f.FailWriteAt {
 		f.writes++
 		if f.ShortWrite && len(b) > 1 {
@@ -349,6 +377,9 @@ func (h *MemHandle) Truncate(size int64) error {
 	if h.closed {
 		return fs.ErrClosed
 	}
+	if h.fs.opFault() {
+		return ErrInjected
+	}
 	n := h.n
 	if int(size) <= len(n.data) {
 		n.data = n.data[:size]
@@ -421,6 +452,9 @@ func (f *FS) openFile(name string, flag int, perm os.FileMode) (*os.File, error)
 		if parent == nil || !parent.dir {
 			return nil, notExist("open", name)
 		}
+		if f.opFault() {
+			return nil, ErrInjected
+		}
 		n = &node{path: p}
 		f.nodes = append(f.nodes, n)
 		f.journal(Op{Kind: OpCreate, Path: p})
@@ -459,6 +493,9 @@ func (f *FS) mkdir(p string) error {
 	if parent == nil || !parent.dir {
 		return notExist("mkdir", p)
 	}
+	if f.opFault() {
+		return ErrInjected
+	}
 	f.nodes = append(f.nodes, &node{path: p, dir: true})
 	f.journal(Op{Kind: OpMkdir, Path: p})
 	return nil
@@ -489,9 +526,15 @@ func (f *FS) remove(p string) error {
 		if len(f.children(n.path)) > 0 {
 			return &fs.PathError{Op: "remove", Path: p, Err: errors.New("directory not empty")}
 		}
+		if f.opFault() {
+			return ErrInjected
+		}
 		f.removeNode(n)
 		f.journal(Op{Kind: OpRmdir, Path: n.path})
 		return nil
+	}
+	if f.opFault() {
+		return ErrInjected
 	}
 	f.removeNode(n)
 	f.journal(Op{Kind: OpUnlink, Path: n.path})
@@ -544,6 +587,9 @@ func (f *FS) rename(oldp, newp string) error {
 	parent := f.lookup(filepath.Dir(newp))
 	if parent == nil || !parent.dir {
 		return notExist("rename", newp)
+	}
+	if f.opFault() {
+		return ErrInjected
 	}
 	oldClean := o.path
 	for _, x := range f.nodes {
@@ -675,7 +721,7 @@ func (f *FS) install() {
 // CrashImage returns a new file system holding the state after the first k journalled operations
 // (applied to an empty tree with the given pre-existing directories). Symbolic engine only.
 func (f *FS) CrashImage(k int, base *FS) *FS {
-	img := &FS{sym: true, Root: f.Root, FailWriteAt: -1, NoJournal: true}
+	img := &FS{sym: true, Root: f.Root, FailWriteAt: -1, FailOpAt: -1, NoJournal: true}
 	if base != nil {
 		for _, n := range base.nodes {
 			img.nodes = append(img.nodes, &node{path: n.path, dir: n.dir, data: append([]byte{}, n.data...)})
@@ -729,7 +775,7 @@ func (f *FS) CrashImage(k int, base *FS) *FS {
 
 // Snapshot copies the current tree (used as the base of crash images).
 func (f *FS) Snapshot() *FS {
-	s := &FS{sym: true, Root: f.Root, FailWriteAt: -1}
+	s := &FS{sym: true, Root: f.Root, FailWriteAt: -1, FailOpAt: -1}
 	for _, n := range f.nodes {
 		s.nodes = append(s.nodes, &node{path: n.path, dir: n.dir, data: append([]byte{}, n.data...)})
 	}
@@ -761,7 +807,7 @@ func (f *FS) NativeCrashImage(k int, base *FS, dirs []string) *FS {
 	if err != nil {
 		panic(err)
 	}
-	img := &FS{Root: d, FailWriteAt: -1}
+	img := &FS{Root: d, FailWriteAt: -1, FailOpAt: -1}
 	reroot := func(p string) string { return filepath.Join(d, strings.TrimPrefix(p, f.Root)) }
 	if base != nil {
 		filepath.Walk(base.Root, func(p string, info os.FileInfo, err error) error {
